@@ -44,12 +44,14 @@ class C07(Prop):
             f = dc.functional_of(cfg)
             if rel == "replicate" and f in ("quantile", "median"):
                 rel = "perm"
-            ncols = rng.randint(2, 3) if rel == "columns" else 1
+            ncols = (rng.choice([2, 3, 3, 11, 12]) if rel == "columns" else 1)
             ys, cols = dc.gen_data(rng, cfg, n, ncols)
             w = dc.gen_weights(rng, n)
             if rel == "replicate":
                 w = [float(rng.randint(1, 3)) for _ in range(n)]
             c = {"stream": rel, **cfg, "y": ys, "cols": cols, "w": w}
+            if rel == "columns":
+                c["colnames"] = dc.gen_colnames(rng, ncols) if ncols <= 3 else None
             if rel == "perm":
                 p = list(range(n))
                 rng.shuffle(p)
@@ -101,7 +103,7 @@ class C07(Prop):
         elif rel == "columns":
             out["other"] = {"rows": [], "errs": []}
             for c in case["cols"]:
-                r = dc.call_decompose(case, cols=[c])
+                r = dc.call_decompose(case, cols=[c], colnames=None)
                 if "err" in r:
                     out["other"]["errs"].append(r["err"])
                 else:
